@@ -272,3 +272,78 @@ func H_C13_source_not_aliased() {
 	}
 	verifReach("end")
 }
+
+// acyclic trees in which the same container is reachable twice (a diamond): the export shows it in full
+// at every place it occurs
+func H_C13_shared_child_export() {
+	x := nondetInt()
+	inner := NewList(x, hBytesStr(1))
+	io := NewObject("q", inner)
+	var c any
+	isList := nondetIntRange(0, 1) == 0
+	if isList {
+		c = NewList(inner, io, inner, io)
+	} else {
+		c = NewObject("a", inner, "b", io, "c", inner, "d", NewList(io, io))
+	}
+	before := hSnapAny(c)
+	var nat any
+	if isList {
+		nat = c.(List).NativeSlice()
+	} else {
+		nat = c.(Object).NativeDict()
+	}
+	nm, ok := hNativeSnap(nat)
+	verifAssert(ok, "Native* contains only nil, bool, int, float64, string, []any, map[string]any at every depth")
+	verifAssert(hExact(before, nm), "Native* is deep-equal to the container's content")
+	verifAssert(hExact(before, hSnapAny(c)), "Native* does not modify the container")
+	verifReach("end")
+}
+
+// repeated exports, empty containers included: what is done to one exported map/slice is never visible in a
+// later export of the same or of another container
+func H_C13_repeated_exports() {
+	x := nondetInt()
+	n := nondetIntRange(0, 1)
+	o1, o2 := NewObject(), NewObject()
+	l1, l2 := NewList(), NewList()
+	if n == 1 {
+		o1.Set("k", x)
+		o2.Set("k", x)
+		l1.Add(x)
+		l2.Add(x)
+	}
+	switch nondetIntRange(0, 3) {
+	case 0:
+		d := o1.Dict()
+		d["new"] = 1
+		delete(d, "k")
+		verifAssert(len(o1.Dict()) == n && len(o2.Dict()) == n, "writing into a map returned by Dict() is not visible in a later Dict() of the same or another object")
+		if n == 1 {
+			verifAssert(o1.Dict()["k"] == any(x) && o2.Dict()["k"] == any(x), "writing into a map returned by Dict() is not visible in a later Dict() of the same or another object")
+		}
+	case 1:
+		d := o1.NativeDict()
+		d["new"] = 1
+		delete(d, "k")
+		verifAssert(len(o1.NativeDict()) == n && len(o2.NativeDict()) == n, "writing into a map returned by NativeDict() is not visible in a later export")
+	case 2:
+		s := l1.Slice()
+		s = append(s, 7)
+		s[0] = 8
+		verifAssert(len(l1.Slice()) == n && len(l2.Slice()) == n, "writing into a slice returned by Slice() is not visible in a later Slice() of the same or another list")
+		if n == 1 {
+			verifAssert(l1.Slice()[0] == any(x) && l2.Slice()[0] == any(x), "writing into a slice returned by Slice() is not visible in a later Slice() of the same or another list")
+		}
+	default:
+		s := l1.NativeSlice()
+		s = append(s, 7)
+		s[0] = 8
+		verifAssert(len(l1.NativeSlice()) == n && len(l2.NativeSlice()) == n, "writing into a slice returned by NativeSlice() is not visible in a later export")
+		if n == 1 {
+			verifAssert(l1.NativeSlice()[0] == any(x), "writing into a slice returned by NativeSlice() is not visible in a later export")
+		}
+	}
+	verifAssert(o1.Count() == n && o2.Count() == n && l1.Count() == n && l2.Count() == n, "modifying an exported map/slice does not change any container")
+	verifReach("end")
+}
